@@ -62,6 +62,52 @@ Theorem C10_subset_independent :
       before ++ cases_of scope logline istate body run_body init t ++ after.
 Proof. exact subset_independent. Qed.
 
+(* ---- with describe groups and before_/after_ hooks (any interpreter, any bodies).
+   The claim of independence is about UNGROUPED tests and about groups AS UNITS:
+   * the items of a test file (ungrouped test subroutines and whole describe groups) can be permuted
+     freely: whether the run fails as a whole (a hook raised: no report), the multiset of cases
+     (group, name, scope, skip, verdict, logs) and the counters - hence the exit status - are the same;
+   * every item contributes exactly [item_cases i], a function of the item alone, wherever it stands;
+   * for an ungrouped test that is [cases_of t]. *)
+Theorem C10_items_order_independent :
+  forall (scope logline istate body : Type) run_body (init : istate) (is is' : list (item scope body)),
+    Permutation is is' ->
+    match run_items scope logline istate body run_body init is c0,
+          run_items scope logline istate body run_body init is' c0 with
+    | Some (cs, c), Some (cs', c') => Permutation cs cs' /\ c = c'
+    | None, None => True
+    | _, _ => False
+    end.
+Proof. exact items_order_independent. Qed.
+
+Theorem C10_items_subset_independent :
+  forall (scope logline istate body : Type) run_body (init : istate) (is : list (item scope body)) i cs c,
+    run_items scope logline istate body run_body init is c0 = Some (cs, c) -> In i is ->
+    exists before after, cs = before ++ item_cases scope logline istate body run_body init i ++ after.
+Proof. exact items_subset_independent. Qed.
+
+Theorem C10_ungrouped_item :
+  forall (scope logline istate body : Type) run_body (init : istate) (t : test scope body),
+    item_ok scope logline istate body run_body init (ISingle t) = true /\
+    item_cases scope logline istate body run_body init (ISingle t) =
+    map (fun x => (None, x)) (cases_of scope logline istate body run_body init t).
+Proof. exact single_item. Qed.
+
+(* Tests INSIDE one describe group share the interpreter: there the verdict of a test does depend
+   on what ran before it (the scope of the independence claim, made visible): in a group,
+   `assert.is_notset(req.http.f0)` passes before and fails after `set req.http.f0 = "1"`;
+   as ungrouped tests it passes in both orders. *)
+Theorem C10_group_order_dependent_refuted :
+  verdict_of 1 (irun_items false [] [grp [t_b; t_a]]) = Some Pass /\
+  verdict_of 1 (irun_items false [] [grp [t_a; t_b]]) = Some FailAssert /\
+  verdict_of 1 (irun_items false [] [ISingle t_a; ISingle t_b]) = Some Pass /\
+  verdict_of 1 (irun_items false [] [ISingle t_b; ISingle t_a]) = Some Pass.
+Proof. exact group_order_dependent_refuted. Qed.
+
+Theorem C10_coverage_independent_items :
+  forall P is, irun_items true P is = irun_items false P is.
+Proof. exact inst_coverage_independent_items. Qed.
+
 (* Coverage instrumentation (markers before statements, else-if chains turned into nested else,
    pre-evaluated if() conditions, two markers per switch case) does not change what a subroutine
    does, PROVIDED every pre-evaluated if() condition is quiet: evaluates to a truth value without
@@ -107,6 +153,11 @@ Print Assumptions C10_exit_zero_iff.
 Print Assumptions C10_count_sum.
 Print Assumptions C10_order_independent.
 Print Assumptions C10_subset_independent.
+Print Assumptions C10_items_order_independent.
+Print Assumptions C10_items_subset_independent.
+Print Assumptions C10_ungrouped_item.
+Print Assumptions C10_group_order_dependent_refuted.
+Print Assumptions C10_coverage_independent_items.
 Print Assumptions C10_instrument_equiv.
 Print Assumptions C10_instrument_regroup_refuted.
 Print Assumptions C10_quiet_condition_in_store_model.
